@@ -135,7 +135,21 @@ pub fn one_run(cfg: &Cfg, rc: &RunCfg, acc: &mut Acc) -> (Option<J>, u64, bool) 
     acc.count("sends_overlapping_a_create_or_drop_listener_operation", sends_overlapping);
     // anomalies: (kind of anomaly, explained by churn overlap?, text)
     let mut anomalies: Vec<(String, bool, String)> = Vec::new();
-    for (t, p) in &rep.panics { anomalies.push(("panic".into(), false, format!("thread t{t} panicked: {p}"))) }
+    // a send that panicked never returned: it stays open (its event may or may not have reached some listeners)
+    let mut open_ids: HashSet<u64> = HashSet::new();
+    for (t, p) in &rep.panics {
+        // a sender that finds a listener's queue full (the pooled kinds never have more than BUFFER_SIZE events outstanding, the Arc kinds are kept within it): the queue
+        // holds duplicates, which is what C17-D8 produces when the fan-out of this send -- or of an earlier one -- walked the listener list while it was being rewritten
+        let mut kind = "panic"; let mut explained = false;
+        if let Some(pl) = plogs.iter().find(|pl| pl.tid.load(SeqCst) as usize == *t) {
+            let (a, b) = (pl.open_call.load(SeqCst), pl.panicked_at.load(SeqCst));
+            if a > 0 {
+                open_ids.insert(pl.open_id.load(SeqCst));
+                if p.contains("is full of elements") { kind = "sender_panicked_on_a_full_listener_queue"; explained = sends_overlapping > 0 || spans.iter().any(|(c, d)| a < *d && *c < if b > 0 { b } else { u64::MAX }) }
+            }
+        }
+        anomalies.push((kind.into(), explained, format!("thread t{t} panicked: {p}")))
+    }
     if let Outcome::Stall { .. } = rep.outcome { anomalies.push(("stall".into(), false, format!("run stalled: {}", rep.outcome_json().to_string()))) }
     let complete = rep.outcome == Outcome::Done;
     let acc_set: HashSet<u64> = accepted.iter().copied().collect();
@@ -145,6 +159,7 @@ pub fn one_run(cfg: &Cfg, rc: &RunCfg, acc: &mut Acc) -> (Option<J>, u64, bool) 
         let mut last: HashMap<u64, u64> = HashMap::new();
         for (id, valid, _, _) in ys.iter() {
             if !*valid { anomalies.push(("corrupt".into(), false, format!("steady listener {li} yielded a corrupted payload"))) }
+            if open_ids.contains(id) { continue }          // (the send of that event panicked half-way: neither accepted nor rejected)
             if !acc_set.contains(id) { anomalies.push(("never_accepted".into(), false, format!("steady listener {li} yielded {id}, which no send reported as accepted"))); continue }
             if !seen.insert(*id) { anomalies.push(("duplicated".into(), overlaps_churn(id), format!("steady listener {li} yielded event {id} twice"))) }
             let (p, k) = (id >> shift, id & ((1 << shift) - 1));
@@ -156,7 +171,7 @@ pub fn one_run(cfg: &Cfg, rc: &RunCfg, acc: &mut Acc) -> (Option<J>, u64, bool) 
     // churned listeners: per producer, a contiguous run of that producer's accepted events, no repeats
     for (ci, got) in churn.listeners.lock().unwrap().iter().enumerate() {
         let mut seen: HashSet<u64> = HashSet::new();
-        for id in got { if !seen.insert(*id) { anomalies.push(("churned_duplicated".into(), overlaps_churn(id), format!("churned listener #{ci} yielded event {id} twice"))) } if !acc_set.contains(id) && cfg.kind != Kind::MultiMmap { anomalies.push(("never_accepted".into(), false, format!("churned listener #{ci} yielded {id}, never accepted"))) } }
+        for id in got { if !seen.insert(*id) { anomalies.push(("churned_duplicated".into(), overlaps_churn(id), format!("churned listener #{ci} yielded event {id} twice"))) } if !acc_set.contains(id) && !open_ids.contains(id) && cfg.kind != Kind::MultiMmap { anomalies.push(("never_accepted".into(), false, format!("churned listener #{ci} yielded {id}, never accepted"))) } }
         for (p, l) in plogs.iter().enumerate() {
             let mine: Vec<u64> = l.accepted.lock().unwrap().clone();
             let idx: Vec<usize> = got.iter().filter(|g| (**g >> shift) as usize == p + 1).filter_map(|g| mine.iter().position(|m| m == g)).collect();
